@@ -217,6 +217,31 @@ var families = []family{
 		}
 		return fmt.Sprint(sum, l.AsArray())
 	}},
+	{"module-constructors", func(seed uint64) string {
+		// the universal constructors of the module, every argument form, with the
+		// default notation and with a notation of the caller's own
+		n := cdc.Notation().Make()
+		var sb strings.Builder
+		for i := 0; i < 6; i++ {
+			a, b := int64(lcg(&seed)%50), int64(lcg(&seed)%50)
+			src := fmt.Sprintf("[%d, %d, %d]", a, b, i)
+			l1 := mod.List[int64](src + "(List)")
+			l2 := mod.List[int64](src+"(List)", n)
+			s1 := mod.Set[int64](src + "(Set)")
+			st := mod.Stack[int64](src+"(Stack)", n)
+			q := mod.Queue[int64](src + "(Queue)")
+			ar := mod.Array[int64](src + "(Array)")
+			c1 := mod.Catalog[string, int64](fmt.Sprintf("[\"a\": %d, \"b\": %d](Catalog)", a, b))
+			m1 := mod.Map[string, int64](fmt.Sprintf("[\"k\": %d](Map)", b), n)
+			l3 := mod.List[int64]([]int64{a, b})
+			s2 := mod.Set[int64](l3)
+			c2 := mod.Catalog[string, int64](map[string]int64{"x": a})
+			as := mod.Association[string, int64]("key", b)
+			fmt.Fprint(&sb, l1.AsArray(), l2.AsArray(), s1.AsArray(), st.AsArray(), q.AsArray(), ar.AsArray(),
+				c1.GetKeys().AsArray(), c1.GetValue("b"), m1.GetValue("k"), l3.AsArray(), s2.AsArray(), c2.GetValue("x"), as.GetKey(), as.GetValue(), ";")
+		}
+		return sb.String()
+	}},
 }
 
 // C19Pairs enumerates unordered pairs of families (incl. a family with itself).
@@ -324,7 +349,7 @@ type classProbe struct {
 	get  func() any
 }
 
-func probesFor[T any](tag string) []classProbe {
+func probesFor[T comparable](tag string) []classProbe {
 	n := cdc.Notation().Make()
 	return []classProbe{
 		{"List[" + tag + "]", func() any { return col.List[T](n) }},
@@ -335,6 +360,12 @@ func probesFor[T any](tag string) []classProbe {
 		{"Collator[" + tag + "]", func() any { return age.Collator[T]() }},
 		{"Sorter[" + tag + "]", func() any { return age.Sorter[T]() }},
 		{"Iterator[" + tag + "]", func() any { return age.Iterator[T]() }},
+		{"Catalog[" + tag + "," + tag + "]", func() any { return col.Catalog[T, T](n) }},
+		{"Map[" + tag + "," + tag + "]", func() any { return col.Map[T, T](n) }},
+		{"Association[" + tag + "," + tag + "]", func() any { return col.Association[T, T](n) }},
+		{"Catalog[" + tag + ",[]" + tag + "]", func() any { return col.Catalog[T, []T](n) }},
+		{"Map[string," + tag + "]", func() any { return col.Map[string, T](n) }},
+		{"Association[int," + tag + "]", func() any { return col.Association[int, T](n) }},
 	}
 }
 
